@@ -257,6 +257,16 @@ theorem StoreInv.admitDelete {s : Store} (h : StoreInv s) {r : Res} (hr : r ∈ 
       · exact h
     · exact h
 
+theorem StoreInv.touchRes {s : Store} (h : StoreInv s) (g k n : String) (l : Labels) :
+    StoreInv (s.touchRes g k n l).1 := by
+  unfold Store.touchRes
+  split
+  · exact h
+  · next r hg =>
+    split
+    · exact h
+    · exact h.putR_bump (getR_some hg).1 rfl rfl rfl rfl
+
 theorem StoreInv.deleteRes {s : Store} (h : StoreInv s) (g k n p : String) (lo po : Bool) (st : Option Nat) :
     StoreInv (s.deleteRes g k n p lo po st).1 := by
   unfold Store.deleteRes
